@@ -240,19 +240,27 @@ def known_for(prop_id, tag):
 # ---------------------------------------------------------------------------
 # replay
 
-def write_replay(prop_id, case, violation, n):
+def write_replay(prop_id, case, violation, n, repeat=1):
     os.makedirs(os.path.join(VERIF, 'replays'), exist_ok=True)
     path = os.path.join(VERIF, 'replays', f'{prop_id}-{case.get("seed", 0)}-{n}.json')
+    rec = {'property': prop_id, 'violation': violation, 'case': case}
+    if repeat > 1:
+        rec['repeat'] = repeat
+        rec['note'] = ('the violation depends on state that earlier executions leave behind in '
+                       f'the process: the replay executes the case up to {repeat} times in one '
+                       'fresh interpreter and reports the first execution that violates')
     with open(path, 'w') as f:
-        json.dump({'property': prop_id, 'violation': violation, 'case': case},
-                  f, indent=1, sort_keys=True, default=str)
+        json.dump(rec, f, indent=1, sort_keys=True, default=str)
     return path
 
 
 def replay_file(prop, path, quiet=False):
     with open(path) as f:
         rec = json.load(f)
-    res = run_case_guarded(prop, rec['case'])
+    for _ in range(max(1, int(rec.get('repeat', 1)))):
+        res = run_case_guarded(prop, json.loads(json.dumps(rec['case'])))
+        if res.get('violation'):
+            break
     v = res.get('violation')
     if not quiet:
         print(json.dumps({'digest': res.get('digest'), 'violation': v},
@@ -337,12 +345,24 @@ def check(prop_id, tier):
             continue
         if len(reported) >= max_report:
             continue
-        r = rs[0]
-        small = shrink_case(prop, r['case'], tag, bud.get('shrink_tests', 300))
-        res2 = run_case_guarded(prop, small)
-        v2 = res2.get('violation') or r['violation']
-        path = write_replay(prop_id, small, v2, len(reported))
-        t = replay_in_fresh_interpreter(prop_id, path)
+        # minimise, then prove the replay file in a brand-new interpreter.  Where that does
+        # not reproduce (the violation needs state that earlier executions left behind in the
+        # worker process - a process-global introduced by the change under test) fall back to:
+        # the same case executed three times in one fresh interpreter, the unminimised case,
+        # another run with the same tag.  Repeating a case is just a longer history: a tree on
+        # which the property holds passes every repetition.
+        t = path = v2 = None
+        for r in rs[:3]:
+            small = shrink_case(prop, r['case'], tag, bud.get('shrink_tests', 300))
+            res2 = run_case_guarded(prop, small)
+            v2 = res2.get('violation') or r['violation']
+            for cand, repeat in ((small, 1), (small, 3), (r['case'], 1), (r['case'], 3)):
+                path = write_replay(prop_id, cand, v2, len(reported), repeat=repeat)
+                t = replay_in_fresh_interpreter(prop_id, path)
+                if t == tag:
+                    break
+            if t == tag:
+                break
         if t != tag:
             print(f'HARNESS-ERROR property={prop_id} replay {path} gave tag {t!r}, '
                   f'expected {tag!r} (determinism leak)', flush=True)
